@@ -44,14 +44,14 @@ def assembleFrom (ss0 : List Stmt) : Outcome Assembly :=
         | .diverged => .diverged
 
 theorem assemble_eq_from {fs : Files} {lines : List Str} {parsed ss0 : List Stmt}
-    (hp : parseLines lines = .ok parsed) (he : expand fs 64 parsed = .ok ss0) :
+    (hp : parseLines lines = .ok parsed) (he : expand fs 64 [] parsed = .ok ss0) :
     assemble fs lines = assembleFrom ss0 := by
   unfold assemble assembleFrom
   rw [hp]; dsimp only; rw [he]
   rfl
 
-theorem expand_go_noinclude (fs : Files) (fuel : Nat) (ss : List Stmt)
-    (h : ss.all (fun s => !s.row.isInclude) = true) : expand.go fs fuel ss = .ok ss := by
+theorem expand_go_noinclude (fs : Files) (fuel : Nat) (inc : List Str) (ss : List Stmt)
+    (h : ss.all (fun s => !s.row.isInclude) = true) : expand.go fs fuel inc ss = .ok ss := by
   induction ss with
   | nil => rw [expand.go]
   | cons s r ih =>
@@ -60,9 +60,9 @@ theorem expand_go_noinclude (fs : Files) (fuel : Nat) (ss : List Stmt)
     simp only [h.1, Bool.false_and, Bool.false_eq_true, if_false]
     rw [ih (by simpa using h.2)]
 
-theorem expand_noinclude (fs : Files) (fuel : Nat) (ss : List Stmt)
-    (h : ss.all (fun s => !s.row.isInclude) = true) : expand fs (fuel + 1) ss = .ok ss := by
-  rw [expand]; exact expand_go_noinclude fs fuel ss h
+theorem expand_noinclude (fs : Files) (fuel : Nat) (inc : List Str) (ss : List Stmt)
+    (h : ss.all (fun s => !s.row.isInclude) = true) : expand fs (fuel + 1) inc ss = .ok ss := by
+  rw [expand]; exact expand_go_noinclude fs fuel inc ss h
 
 /-- run a check on the result of assembling an INCLUDE-free program -/
 def checkProgram (lines : List Str) (check : Assembly → Bool) : Bool :=
@@ -80,7 +80,7 @@ theorem checkProgram_sound {lines : List Str} {check : Assembly → Bool} (h : c
     obtain ⟨h1, h2⟩ := h
     split at h2
     · rename_i a ha
-      exact ⟨a, by rw [assemble_eq_from hp (expand_noinclude fs 63 p h1), ha], h2⟩
+      exact ⟨a, by rw [assemble_eq_from hp (expand_noinclude fs 63 [] p h1), ha], h2⟩
     · cases h2
   · cases h
 
